@@ -1503,3 +1503,25 @@ func (p *relProver) initOnlyGlobal(g *ssa.Global) bool {
 	p.initOnly[g] = ok
 	return ok
 }
+
+// D13 — search contract of package slices: slices.Index / IndexFunc / BinarySearch-free forms return -1 or an index of
+// the slice they searched. x[i] with i the result of such a search of x and i >= 0 on every path is in range.
+func (p *relProver) proveSearchIndex(in ssa.Instruction, x, idx ssa.Value) (string, bool) {
+	cl, ok := idx.(*ssa.Call)
+	if !ok || cl.Call.StaticCallee() == nil || cl.Call.StaticCallee().Origin() == nil || len(cl.Call.Args) < 1 {
+		return "", false
+	}
+	switch funcKey(cl.Call.StaticCallee().Origin()) {
+	case "slices.Index", "slices.IndexFunc":
+	default:
+		return "", false
+	}
+	if !p.sameSlice(cl.Call.Args[0], x) && !p.same(cl.Call.Args[0], x) {
+		return "", false
+	}
+	facts := p.factsAt(in.Block())
+	if p.lower(idx, facts, 0) < 0 {
+		return "", false
+	}
+	return "D13 search contract: the index is the non-negative result of slices.Index/IndexFunc over the same slice", true
+}
